@@ -109,7 +109,14 @@
 //	            o_strconv_FormatFloat_g / _f : Z -> go_string, leading parameters of every translated function
 //	            that uses them (directly or through a callee), applied to the bit pattern go_math_Float64bits f;
 //	            any other format / precision / bit size: error. Conversions between string types (json.Number),
-//	            string([]byte), []byte(string): the same bytes.
+//	            string([]byte), []byte(string): the same bytes. d.String() on a time.Duration: ORACLE
+//	            o_time_Duration_String : Z -> go_string (nanoseconds -> text), like the float formattings.
+//	            INTERFACE generated.Message: a parameter m of that type is read as the PAIR of the values its
+//	            methods return, m_Frame (can.Frame) and m_Descriptor (descriptor.Message); m.Frame() / m.Descriptor()
+//	            are the components (the methods are taken to be pure and stable across calls; THAT the generated
+//	            Frame() / Descriptor() methods return what the interpreter's model says is what C03 / C10's wiring
+//	            tie establishes), m can only be passed on to another translated function; any other method: error.
+//	            make([]byte, n, cap) = make([]byte, n) (capacity not observable on contents; its panics not modelled).
 //
 // Every integer operation is emitted at the static type go/types reports for that expression,
 // against the operators of coq/theories/Translate/GoSem.v, every floating-point operation against
@@ -247,6 +254,8 @@ var whitelist = []struct{ pkg, recv, name string }{
 	{"pkg/cantext", "", "Marshal"},
 	{"pkg/cantext", "", "MarshalCompact"},
 	{"pkg/cantext", "", "MessageString"},
+	{"pkg/cantext", "", "AppendCycleTime"},
+	{"pkg/cantext", "", "AppendDelayTime"},
 }
 
 // ---------------------------------------------------------------------------- errors
@@ -1236,6 +1245,9 @@ func libKey(f *types.Func) (string, bool) {
 		if n, ok := r.Type().(*types.Named); ok && f.Pkg().Path() == "encoding/binary" && n.Obj().Name() == "littleEndian" {
 			return "encoding/binary.LittleEndian." + f.Name(), true
 		}
+		if n, ok := r.Type().(*types.Named); ok && f.Pkg().Path() == "time" && n.Obj().Name() == "Duration" {
+			return "time.Duration." + f.Name(), true // method of the integer type time.Duration
+		}
 		return "", false
 	}
 	return f.Pkg().Path() + "." + f.Name(), true
@@ -1251,6 +1263,8 @@ var oracles = map[string]string{
 	"unicode.IsUpper":  "o_unicode_IsUpper",
 	"unicode.IsLower":  "o_unicode_IsLower",
 	"unicode.IsLetter": "o_unicode_IsLetter",
+	// time.Duration.String(): no model (the hand model's GoDuration segment): Z (nanoseconds) -> text
+	"time.Duration.String": "o_time_Duration_String",
 }
 
 func oracleOf(f *types.Func) (string, bool) {
@@ -1267,7 +1281,7 @@ func oracleOf(f *types.Func) (string, bool) {
 // from the float64's BIT PATTERN (go_math_Float64bits) to the text - exactly how the hand model
 // Gen/Render.v carries them (segments FloatG bits / FloatF bits, rendered by a Section variable).
 func oracleType(o string) string {
-	if strings.HasPrefix(o, "o_strconv_") {
+	if strings.HasPrefix(o, "o_strconv_") || strings.HasPrefix(o, "o_time_") {
 		return "Z -> go_string"
 	}
 	return "Z -> bool"
@@ -1947,6 +1961,16 @@ func (c *fctx) expr(e ast.Expr) string {
 				t.failf(x.Pos(), "%s.%s (value, error) used in an expression: only `v, err := ...`", callee.Pkg().Name(), callee.Name())
 			}
 			return c.textCall(x, callee, tl)
+		}
+		if o, ok := oracleOf(callee); ok && o == "o_time_Duration_String" {
+			sel, isSel := ast.Unparen(x.Fun).(*ast.SelectorExpr)
+			if !isSel || len(x.Args) != 0 {
+				t.failf(x.Pos(), "time.Duration.String not called as d.String()")
+			}
+			if a := c.typeOf(sel.X); a.k != kInt || !a.signed || a.bits != 64 || a.ptr {
+				t.failf(x.Pos(), "receiver of time.Duration.String is not a Duration value")
+			}
+			return fmt.Sprintf("(%s %s)", o, c.expr(sel.X))
 		}
 		if o, ok := oracleOf(callee); ok {
 			if len(x.Args) != 1 {
